@@ -543,11 +543,13 @@ def gen_dependency_sets(tier):
     Gdk includes GdkPixbuf): Header.dependencies must list exactly the includes, and a reference into each included
     namespace must be stored as a cross-reference to it."""
     from vt.girgen import Doc
-    menu = [('GLib', '2.0'), ('GObject', '2.0'), ('TestBase', '1.0'), ('Testing', '2.0'), ('Te', '1.0'), ('Other', '3.0')]
+    # Base-1.0 is a substring (suffix) of TestBase-1.0: a dependency list handled as text must not confuse them
+    menu = [('GLib', '2.0'), ('GObject', '2.0'), ('TestBase', '1.0'), ('Testing', '2.0'), ('Te', '1.0'), ('Other', '3.0'),
+            ('Base', '1.0')]
     sels = [()]
     for r in (1, 2, 3):
         sels += list(itertools.permutations(menu, r)) if (tier == 'thorough' or r < 3) else \
-            [p for p in itertools.permutations(menu, r) if sum(1 for n, v in p if n.startswith('Te')) >= 2]
+            [p for p in itertools.permutations(menu, r) if sum(1 for n, v in p if n.startswith('Te') or n == 'Base') >= 2]
     for sel in sels:
         params = []
         for n, v in sel:
